@@ -116,9 +116,12 @@ def run(ctx, rep):
         for name, m in sorted(c.methods.items()):
             if name in CONSTRUCTORS or m.kind == "classmethod" and name.startswith("from_"):
                 continue
-            if name.startswith("_") and not name.startswith("__") and m.kind in ("classmethod", "staticmethod") and m.qual in P.reach \
-                    and not any(e.caller not in P.reach for e in P.cg.callers_of(m.qual)):
+            callers_ = P.cg.callers_of(m.qual)
+            if name.startswith("_") and not name.startswith("__") and m.kind in ("classmethod", "staticmethod") \
+                    and (m.qual in P.reach or (callers_ and all(e.kind == "expanded" for e in callers_))) \
+                    and not any(e.caller not in P.reach for e in callers_):
                 continue  # private construction helpers: class/static methods called only from the from_* factories' call tree
+                # (a helper expanded in place at every call site -- second-chance normal form -- is analysed there)
             api.append(m)
     mix = ["chartparse.util.DictPropertiesEqMixin.__eq__", "chartparse.util.DictReprMixin.__repr__",
            "chartparse.util.DictReprTruncatedSequencesMixin.__repr__"]
@@ -179,7 +182,7 @@ def run(ctx, rep):
             for name, m in k.methods.items():
                 if m.kind == "cached_property":
                     lazy.append(f"cached_property {k.name}.{name}")
-                if name not in CONSTRUCTORS:
+                if name not in CONSTRUCTORS and m.kind != "staticmethod":  # (a static method has no self to write to)
                     s = ctx.summary(m)
                     for e in s.effects:
                         if e.kind in ("store_attr", "aug_attr") and e.target[0] == "self":
